@@ -23,11 +23,7 @@ check_overlap = Fn(
         C("rejects_only_touching",
           "res.1 is Some ==> touches(position as int, size as int, res.1->0.position as int, res.1->0.size as int)", ["C06"]),
     ],
-    rewrites=[
-        Rewrite("|e| {", "|e: &OverlapCheckerEntry| -> (r: core::cmp::Ordering)\n"
-                "            ensures r == (if e.position < position { %s } else if e.position == position { %s } else { %s })\n        {" % CMP,
-                rule="R4", why="closure header with types and spec; body untouched"),
-    ],
+    closures={1: ("|e: &OverlapCheckerEntry| -> (r: core::cmp::Ordering)\n            ensures r == (if e.position < position { %s } else if e.position == position { %s } else { %s })\n       " % CMP, "")},
     loops={
         1: Loop(invariant=[
             C("range", "i <= found < self.entries@.len()"),
